@@ -241,13 +241,16 @@ def gen_case(rng, nops, big):
             emit("g:%d:%s" % (s, "o" * len(q)))
     for pe in range(np_):
         emit("r:1:%d:%s" % (pe, payload()))
-    cfg = "%d,%d,%d,%d,%d,%d,%d" % (chunk, maxq, cbp, maxsess, idle, nl, np_)
+    # every third case puts peers 0 and 1 on 127.0.0.1:1PPPP / 127.0.0.11:PPPP: different addresses whose host and
+    # port texts coincide when concatenated (the peer index must still tell them apart)
+    collide = 1 if rng.random() < 0.34 else 0
+    cfg = "%d,%d,%d,%d,%d,%d,%d,%d" % (chunk, maxq, cbp, maxsess, idle, nl, np_, collide)
     return cfg, ops
 
 
 def property_oracle(cfg, ops, out_line):
     """checks the property on the implementation's own output; returns (sig, what) or None"""
-    chunk, maxq, cbp, maxsess, idle, nl, np_ = [int(x) for x in cfg.split(",")]
+    chunk, maxq, cbp, maxsess, idle, nl, np_ = [int(x) for x in cfg.split(",")][:7]
     groups = [g.split(" ") if g != "." else [] for g in out_line.split(" | ")]
     real_ops = [o for o in ops if not o.startswith("t=")]
     if len(groups) != len(real_ops):
